@@ -347,6 +347,23 @@ func c01OneLicenceManySpellings() {
 	for _, b := range bases {
 		e := genException()
 		sp := []string{b, b + "-only", b + "+", b + "-or-later", b + " WITH " + e, b + "-only WITH " + e, b + "+ WITH " + e}
+		// systematically: the bare id, the id WITH an exception and the -only spelling as the three operands of one OR / AND,
+		// in every order, against every single spelling
+		trio := []string{b, b + " WITH " + e, b + "-only"}
+		for _, order := range [][3]int{{0, 1, 2}, {0, 2, 1}, {1, 0, 2}, {1, 2, 0}, {2, 0, 1}, {2, 1, 0}} {
+			terms := []string{trio[order[0]], trio[order[1]], trio[order[2]]}
+			for _, t := range []*tree{orT(orT(leafT(0), leafT(1)), leafT(2)), andT(andT(leafT(0), leafT(1)), leafT(2)), orT(leafT(0), andT(leafT(1), leafT(2)))} {
+				text := t.render(terms, "", false, 0, true)
+				for _, a := range sp {
+					k := &kase{Expr: text, ExprHex: hx(text), Allowed: []string{a}, Tree: t.prefix(), Terms: terms}
+					res.Evaluations++
+					count("one_licence_trio")
+					if f := c01Check(k, order[0] == 0); f != nil {
+						fail(*f)
+					}
+				}
+			}
+		}
 		for round := 0; round < scale(12, 60); round++ {
 			n := 2 + rng.Intn(3)
 			perm := rng.Perm(len(sp))
